@@ -17,7 +17,7 @@ RULE = ("every history up to the depth bound over sync/unsync (mutual, "
 EXPLANATION = ("direct exploration; reference model = the directed link "
                "graph with transitive propagation")
 BOUNDS = {"quick": "depth 3 over ~100 events with dedup (reduced menu at the last level)", "thorough":
-          "depth 4"}
+          "depth 4 (reduced menu at the last level)"}
 ASSUMPTIONS = ["Dict/Set items are documented as not synchronised",
                "3 objects"]
 MIN_OUTCOMES = {t: ["propagated", "one-way-blocked", "list-propagated",
@@ -162,14 +162,18 @@ class World:
         seen.discard(node)
         return seen
 
-    def reachable(self, node):
+    def reachable(self, node, stops=()):
+        """nodes the change of `node` has to reach; a node in `stops`
+        (it already holds the value, so receiving it is no change there)
+        is reached but passes nothing on"""
         seen, todo = {node}, [node]
         while todo:
             n = todo.pop()
             for (s, d) in self.edges:
                 if s == n and d not in seen and self.objs.get(d[0]) is not None:
                     seen.add(d)
-                    todo.append(d)
+                    if d not in stops:
+                        todo.append(d)
         seen.discard(node)
         return seen
 
@@ -306,8 +310,13 @@ def step(ctx, w, ev, hist):
     # ---- convergence / isolation
     if changed_node is not None:
         src_val = w.value(*changed_node)
-        reach = w.reachable(changed_node)
         inplace = k == "lop" and ev[3] != "assign"
+        # an assignment that arrives at an attribute already holding the
+        # value is not a change there and is not passed on (a one-way target
+        # beyond it that diverged on its own stays as it is)
+        stops = set() if inplace else {n for n, v in before.items()
+                                       if v == src_val and n != changed_node}
+        reach = w.reachable(changed_node, stops)
         really_changed = before[changed_node] != src_val
         # a partner that refuses the pushed value keeps its old one and
         # passes nothing on: cut the propagation there
@@ -637,8 +646,8 @@ def run_shard(ctx, shard, tier):
         return
     evs = menu()
     depth = 3 if tier == "quick" else 4
-    # quick tier: the last level uses a reduced menu (all link events, one
-    # scalar value, three list mutators); the probes add the rest
+    # the last level uses a reduced menu (all link events, one scalar value,
+    # three list mutators); the probes add the rest
     evs3 = [e for e in evs if e[0] in ("sync", "unsync", "gc", "del") or
             (e[0] == "set" and e[3] in (1, 3)) or
             (e[0] == "lop" and e[3] in ("append", "ext_del", "assign"))]
@@ -648,7 +657,7 @@ def run_shard(ctx, shard, tier):
         nxt = []
         for hist in frontier:
             for ev in ([evs[shard["first"]]] if d == 1 else
-                       (evs if d < 3 or tier != "quick" else evs3)):
+                       (evs if d < depth else evs3)):
                 h2 = hist + [ev]
                 ctx.case({"history": h2})
                 ok, key = run_history(ctx, h2)
